@@ -247,3 +247,14 @@ func (t *Transport) VerifNow() time.Time {
 	defer t.connsMu.Unlock()
 	return t.now
 }
+
+// VerifGetConn runs the pool's getConn alone and hands out the connection it
+// chose, so that a harness can let housekeeping run between the choice of a
+// connection and the call that is then made on it.
+func (t *Transport) VerifGetConn(addr string) (*Conn, error) {
+	pc, err := t.getConn(addr)
+	if err != nil {
+		return nil, err
+	}
+	return pc.Conn, nil
+}
